@@ -191,6 +191,87 @@ def run_uid_lengths(ctx):
             ctx.case(('uidlen', cf, n), True, labels=['uid-length-enum'])
 
 
+def run_storage_files(ctx):
+    """The C-STORE-RQ that storage_scu builds from a FILE NAME (it reads the file meta information, and the data set
+    itself when the meta information lacks the instance UID): same well-formedness, and 'data set present' must be
+    followed by the file's data set."""
+    import os
+    import tempfile
+    import pydicom
+    from pynetdicom2 import applicationentity, sopclass
+    from .. import fakedul as fd, svc
+    tmp = tempfile.mkdtemp(prefix='vf_c08_')
+    try:
+        for ts in (svc.IMPLICIT, svc.EXPLICIT):
+            for meta_uid in (True, False):
+                for pixels in (False, True):
+                    case = {'storage_file': True, 'ts': ts, 'meta_instance_uid': meta_uid, 'pixel_data': pixels}
+                    ds = svc.simple_ds(PatientName='File^Source', PatientID='F1', SOPClassUID=svc.SC_STORAGE,
+                                       SOPInstanceUID='1.2.826.0.1.3680043.9.8.%d' % (1 + meta_uid + 2 * pixels))
+                    if pixels:
+                        ds.Rows, ds.Columns, ds.BitsAllocated = 2, 3, 8
+                        ds.PixelData = b'\x01\x02\x03\x04\x05\x06'
+                        ds['PixelData'].VR = 'OB'
+                    path = os.path.join(tmp, 'f.dcm')
+                    fm = pydicom.dataset.FileMetaDataset()
+                    fm.MediaStorageSOPClassUID = svc.SC_STORAGE
+                    fm.MediaStorageSOPInstanceUID = ds.SOPInstanceUID
+                    fm.TransferSyntaxUID = ts
+                    fds = pydicom.dataset.FileDataset(path, ds, file_meta=fm, preamble=b'\0' * 128)
+                    fds.is_implicit_VR = ts == svc.IMPLICIT
+                    fds.is_little_endian = True
+                    fds.save_as(path, write_like_original=False)
+                    if not meta_uid:
+                        full = pydicom.dcmread(path)
+                        del full.file_meta.MediaStorageSOPInstanceUID
+                        full.file_meta.FileMetaInformationGroupLength = 0
+                        full.save_as(path, write_like_original=True)
+                    want_data = svc.enc_ds(ds, ts)
+                    seen = {}
+
+                    def responder(dul, rec):
+                        if rec['kind'] == 'pdu':
+                            t = rec['spec'].get('t')
+                            if t == 1:
+                                pcs = [it for it in rec['spec']['items'] if it['t'] == 0x20]
+                                return [fd.incoming_pdu(fd.ac_spec([(it['id'], 0, ts) for it in pcs], 16384))]
+                            return [fd.incoming_pdu({'t': 6, 'r1': 0, 'r2': 0})] if t == 5 else []
+                        seen['rq'] = rec
+                        f = {0x0002: rec['fields'].get(0x0002), 0x0100: 0x8001, 0x0120: rec['fields'].get(0x0110), 0x0900: 0,
+                             0x1000: rec['fields'].get(0x1000)}
+                        pc = rec['pc_ids'][0]
+                        return [lambda: fd.incoming_msg(dul, f, None, pc)]
+                    fac = fd.Factory([lambda d: setattr(d, 'responder', responder)])
+                    ae = applicationentity.ClientAE('CLI', [ts])
+                    ae.timeout = 0.01
+                    ae.add_scu(sopclass.storage_scu, [svc.SC_STORAGE])
+                    ctx.case(('storage-file', ts, meta_uid, pixels), True, labels=['storage_scu-from-file'], sample=case)
+                    try:
+                        with fd.installed(fac):
+                            with ae.request_association({'aet': 'SRV', 'address': 'peer.example', 'port': 104}) as assoc:
+                                assoc.get_scu(svc.SC_STORAGE)(path, 7)
+                    except Exception as exc:
+                        if 'rq' not in seen:
+                            ctx.fail('C08:storage-file:exception:%s' % lib_frame(exc), 'storage_scu(%r) raised %r' % (case, exc), case)
+                            continue
+                    rq = seen.get('rq')
+                    if rq is None:
+                        ctx.fail('C08:storage-file:nothing-sent', 'no C-STORE-RQ was sent for %r' % (case,), case)
+                        continue
+                    try:
+                        ndata = len([1 for _, h, _ in rq['frags'] if h is not None and not h & 1])
+                        check_send(0x0001, rq['cmd'], ndata, {'AffectedSOPInstanceUID': str(ds.SOPInstanceUID),
+                                                              'AffectedSOPClassUID': svc.SC_STORAGE}, 0, case)
+                        if (rq['data'] or b'') != want_data:
+                            raise Violation('C08:storage-file:data', 'C-STORE-RQ announces a data set; %d data bytes follow, the '
+                                            'file holds %d' % (len(rq['data'] or b''), len(want_data)), case)
+                    except Violation as v:
+                        ctx.fail(v.key, v.what, v.case)
+    finally:
+        import shutil
+        shutil.rmtree(tmp, ignore_errors=True)
+
+
 def run(ctx):
     warnings.simplefilter('ignore')
     try:
@@ -200,15 +281,23 @@ def run(ctx):
     ctx.rule = ('per message class: Hypothesis histories of 1-4 sends of the SAME message object through '
                 'Association.send with field changes and data set attached/removed between sends (objects '
                 'constructed normally or from a decoded command set), plus UIDs of every length 1..64 in every '
-                'UID field; the concatenated command fragments of every send are parsed by the independent '
+                'UID field; the C-STORE-RQ storage_scu builds from a file name (meta information with / without instance UID, with / without pixel data); the concatenated command fragments of every send are parsed by the independent '
                 'reader; non-trivial = >=2 sends, an odd-length UID or a data-set toggle; distinct by history')
     ctx.assumptions = ['zero-length optional elements are accepted as well-formed',
                        'command dictionary and command-field codes transcribed from PS3.7 (vf/refcmd.py)']
     n = 8000 if ctx.thorough else 300
     parallel(ctx, run_class, [{'cfs': dg.ALL_CF[i::16], 'n': n} for i in range(16)])
     run_uid_lengths(ctx)
+    run_storage_files(ctx)
 
 
 def replay(case):
     warnings.simplefilter('ignore')
+    if case.get('storage_file'):
+        from ..common import Ctx
+        sub = Ctx('C08', 'quick', 1)
+        run_storage_files(sub)
+        for key, ent in sorted(sub.failures.items()):
+            raise Violation(key, ent['what'], ent['case'])
+        return
     run_history(case['cf'], case['steps'], case['pc_id'], case['M'], case.get('from_decoded', False), case.get('lazy', False))
